@@ -88,3 +88,22 @@ Theorem C07_all_requests_served_at_rest :
     forall i, In i (subm (base x)) -> fdone (getf (base x) i) = true.
 Proof. intros c n prog x H1 H2 H3 H4 H5. exact (proj1 (proj2 (step_rest c n prog x H1 H2 H3 H4 H5))). Qed.
 Print Assumptions C07_all_requests_served_at_rest.
+
+(* ---- the same ceilings with the dependency resolver in front of the per-call executor — the
+   configuration Executor() gives by default (Proofs/DepCeiling.v); all programs, failing calls and
+   cancellations included ---- *)
+From EL Require Model.DepExec Proofs.DepSafe Proofs.DepCeiling.
+Theorem C07_ceiling_cores_under_resolver :
+  forall c n prog d m,
+    DepExec.dinner c = DepExec.IStep -> wf_prog n prog -> DepSafe.wf_deps c n -> xmax_cores (DepExec.dx c) = Some m ->
+    DepSafe.dreach c (DepExec.dinit n prog) d -> exec_slots (DepExec.dx c) (DepExec.xs d) <= m.
+Proof. exact DepCeiling.dep_ceiling_cores. Qed.
+Print Assumptions C07_ceiling_cores_under_resolver.
+
+Theorem C07_ceiling_workers_under_resolver :
+  forall c n prog d m,
+    DepExec.dinner c = DepExec.IStep -> wf_prog n prog -> DepSafe.wf_deps c n ->
+    xmax_cores (DepExec.dx c) = None -> xmax_workers (DepExec.dx c) = Some m ->
+    DepSafe.dreach c (DepExec.dinit n prog) d -> length (executing (DepExec.xs d)) <= m.
+Proof. exact DepCeiling.dep_ceiling_workers. Qed.
+Print Assumptions C07_ceiling_workers_under_resolver.
